@@ -59,3 +59,54 @@ PROPS["C05"] = {
                      "up to 2^28-1 is covered, the body bytes are not present)"]},
     ],
 }
+
+# ---------------------------------------------------------------------------
+TRACING_STUB = ("tracing events given empty bodies (tracing::callsite::DefaultCallsite::interest -> never, "
+                "tracing::__macro_support::__is_enabled -> false, tracing::Event::dispatch -> no-op): the real "
+                "dispatch path registers a thread-local destructor Kani cannot compile; claim = no subscriber installed")
+PL_STUB = ("parking_lot::RawMutex::{lock_slow, unlock_slow} replaced by panicking stubs: harnesses are single "
+           "threaded, an uncontended lock never takes the slow path (reaching it would fail the harness)")
+
+C13_FNS = ["rumqttd::segments::CommitLog::{new, append, apply_retention, readv, next_offset, memory_segments_count}",
+           "rumqttd::segments::segment::Segment::{new, with_offset, push, readv, next_offset, len, size}"]
+
+PROPS["C13"] = {
+    "title": "Commit log reads return exactly the retained suffix; retention is bounded",
+    "families": [
+        {"name": "append_step", "filters": ["c13::step::append_"], "tier": "quick", "timeout": 900, "jobs": 3, "mem_gb": 18,
+         "min_harnesses": 9,
+         "kind": "I (one inductive step over INV pre-states built with the real Segment::with_offset + push)",
+         "bounds": "segment layout concrete per instance (1-3 segments, 0-2 entries each, max_mem_segments 1-3, "
+                   "max_segment_size 1024); ALL entry sizes symbolic u16 under INV; appended size symbolic u16",
+         "asserts": "append returns the log tail; rotates iff the active segment was full; evicts exactly the whole oldest "
+                    "segment iff the segment limit is reached; never more than max_mem_segments; absolute offsets stay "
+                    "contiguous; the new entry is readable right behind the previous tail and reports caught-up",
+         "encodes": C13_FNS, "stubs": [TRACING_STUB, BYTES_MODEL],
+         "assumes": ["INV (see harness/kani/src/c13/mod.rs) on the pre-state; it is re-established by the layout post-condition"],
+         "outside": ["more than 3 retained segments / 2 entries per segment in a pre-state shape", "the DataLog wrapper (HashMap)"]},
+        {"name": "read_step", "filters": ["c13::step::read_"], "tier": "quick", "timeout": 900, "jobs": 3, "mem_gb": 18,
+         "min_harnesses": 11,
+         "kind": "I (one read from an INV state) against a closed-form reference",
+         "bounds": "layout concrete per instance; cursor segment concrete per instance (every live segment, and a stale one "
+                   "below head); cursor offset SYMBOLIC over every value the log can have issued for that segment; "
+                   "len symbolic 0..=4; entry sizes symbolic",
+         "asserts": "returns exactly the retained entries at/after the cursor, in order, no gaps/repeats, at most len, each "
+                    "tagged with its own (segment, absolute offset); stale cursor resumes at the oldest retained entry; "
+                    "Done iff nothing retained remains; continuation resumes exactly and is itself a valid cursor",
+         "encodes": C13_FNS, "stubs": [TRACING_STUB, BYTES_MODEL], "assumes": ["INV on the pre-state"],
+         "outside": ["len > 4 (idx + len can overflow in Segment::readv for len near u64::MAX; the router passes <= 100)"]},
+        {"name": "fabricated", "filters": ["c13::step::fab_"], "tier": "quick", "timeout": 900, "jobs": 3, "mem_gb": 18,
+         "min_harnesses": 4,
+         "kind": "no-panic for fabricated cursors",
+         "bounds": "2-segment layout; cursor segment in {stale, each live one, beyond tail}; cursor offset ANY u64; len 0..=4",
+         "asserts": "readv returns Ok, no panic/overflow/out-of-bounds (CBMC checks), never more than len entries",
+         "encodes": C13_FNS, "stubs": [TRACING_STUB, BYTES_MODEL]},
+        {"name": "history", "filters": ["c13::history::h_"], "tier": "quick", "timeout": 900, "jobs": 3, "mem_gb": 18,
+         "min_harnesses": 4,
+         "kind": "H (real histories from CommitLog::new with concrete size vectors) tying INV states to reachable ones",
+         "bounds": "4 appends with concrete sizes from {0,1,5,7,512,1023,1024,2048}, max_mem_segments 1-3, then one read with "
+                   "symbolic offset and len 0..=4",
+         "asserts": "layout == documented retention policy; read post-condition as in read_step",
+         "encodes": C13_FNS, "stubs": [TRACING_STUB, BYTES_MODEL]},
+    ],
+}
